@@ -36,7 +36,7 @@ def assigned_names(stmts):
             if isinstance(n, ast.Name) and isinstance(n.ctx, ast.Store):
                 out.add(n.id)
             if isinstance(n, ast.Yield):
-                out.update(('$ycnt', '$yany', '$ylast', '$ypair', '$yrow', '$yseq', '$ylen'))       # ghost state of a generator
+                out.update(('$ycnt', '$yany', '$ylast', '$ypair', '$yrow', '$yseq', '$ylen', '$ydeg'))       # ghost state of a generator
             if isinstance(n, ast.Subscript) and isinstance(n.ctx, ast.Store) and isinstance(n.value, ast.Name):
                 out.add(n.value.id)                          # d[k] = v mutates the local d
             if isinstance(n, ast.Call) and isinstance(n.func, ast.Attribute) and n.func.attr in ('append', 'extend', 'update', 'add', 'pop', 'clear'):
